@@ -194,6 +194,13 @@ pub fn run(ctx: &Ctx, rep: &mut Report) {
             };
             let bypass = kind != "normal-newest";
             let plan = plan_honest(&w.ring, &m.domain, &by, &cand.rotation_data_hash(), &all_slots(&by));
+            if rng.chance(1, 5) {
+                let d = rng.ledger_jump();
+                if w.u.advance(d) {
+                    rep.step(format!("ledger advances by {}", d));
+                    rep.count("advance-ledger");
+                }
+            }
             rep.step(format!("step {} {} (epoch {} -> {})", step, kind, m.epoch(), m.epoch() + 1));
             rep.count(kind);
             let o = w.g.do_rotate(&mut w.u, &cand, &plan, bypass, if bypass { Auth::Only(vec![w.operator.clone()]) } else { Auth::Nobody });
